@@ -389,13 +389,3 @@ Proof.
   intros H. destruct (G text [] None eq_refl H) as (pre & rest & s' & Hs & Hrest). exists pre, rest, s'. split; [exact Hs|exact Hrest].
 Qed.
 
-(* ---- the generated patterns ---- *)
-From Rimu Require Import Types Tables Block TableFacts.
-
-(* every generated pattern is covered (three of them have an optional part whose body can itself match the empty string:
-   admitted by [opt1]) *)
-Definition exact_exceptions : list str := [].
-
-Theorem generated_patterns_exact :
-  forallb (fun nr => wf_exact (re_ast (snd nr)) || mem (fst nr) exact_exceptions) all_regexes = true.
-Proof. vm_compute. reflexivity. Qed.
